@@ -21,11 +21,11 @@ _n = [0]
 
 
 def U(ops, family, cmp="live", disciplined=True):
-    # the items handed to the managers are integers, equal-length tuples or strings, in rotation (the model only sees their ids)
+    # the items handed to the managers are integers, equal-length tuples, strings or identity-equality objects, in rotation (the model only sees their ids)
     _n[0] += 1
     p = {"ops": ops}
-    if _n[0] % 3:
-        p["names"] = ["tuple", "str"][_n[0] % 3 - 1]
+    if _n[0] % 4:
+        p["names"] = ["tuple", "str", "obj"][_n[0] % 4 - 1]       # obj: instances of a user class, equal only to themselves
     return {"kind": "binner_ops", "params": p, "cmp": cmp, "family": family, "disciplined": disciplined}
 
 
